@@ -199,7 +199,7 @@ def run(ck, F):
     for cls in ts:
         r = F.rec[cls]
         fields = [fl['name'] for fl in r['fields']]
-        ck.check(R_seq, contracts.short(cls) + '/no-cache', fields == ['seq'],
+        ck.check(R_seq, contracts.short(cls) + '/no-cache', len(fields) == 1 and r['fields'][0]['t'].replace('const ', '').rstrip(' &') == r['targs'][0],
                  f'{cls} has data members {fields}: a typed_sequence must hold the member sequence only (no cached types)', loc=r['loc'])
         seqcls = r['targs'][0]
         for meth, nargs in (('size', 0), ('get', 1), ('operand', 0)):
@@ -217,7 +217,7 @@ def run(ck, F):
             if good:
                 v = outs[0][2]
                 got = contracts.render(v, outs[0][0], {o2[1]: 'R'})
-                seq = ('fld', o2, 'seq')
+                seq = ('fld', o2, fields[0])
                 if meth == 'size':
                     good = v[0] in ('call', 'vcall') and v[2] == seq and not v[3] and contracts.fn_qname(v[1]).endswith('::size')
                 elif meth == 'get':
